@@ -174,7 +174,7 @@ def enumerate_cases(tier, seed):
     quick = tier == "quick"
     cases = []
     if quick:
-        shapes = [[2, 3], [5, 4], [1, 4], [10, 3], [3, 4, 2], [3, 1, 4], [5, 5, 5], [2, 3, 2, 3]]
+        shapes = [[2, 3], [5, 4], [1, 4], [10, 3], [3, 4, 2], [3, 1, 4], [5, 5, 5], [10, 10, 10], [2, 3, 2, 3]]
         rxs, rzs = [1, 2], [1, 2]
         seeds = [seed, 1] if seed != 1 else [1, 2]
         eps_list = [1e-4, 1e-6, 1e-8]
@@ -217,7 +217,7 @@ def bound(tier, seed):
     if tier == "quick":
         return ("C13 quick: y = round(ones + z*z, 1e-13) with z random TT of rank rz in {1,2} (all entries of y >= 1, checked "
                 "at run time: min|y| >= 0.5), x random TT of rank rx in {1,2}; shapes {[2,3],[5,4],[1,4],[10,3],[3,4,2],"
-                "[3,1,4],[5,5,5],[2,3,2,3]}; ops: x / y (tol 1e-8), s / y for s in {1.0, -2.5, int 3, torch.tensor([0.75])} "
+                "[3,1,4],[5,5,5],[10,10,10],[2,3,2,3]}; ops: x / y (tol 1e-8), s / y for s in {1.0, -2.5, int 3, torch.tensor([0.75])} "
                 "(tol 1e-8), torchtt.elementwise_divide(x,y,eps,starting_tensor,preconditioner) with eps in {1e-4,1e-6,1e-8} x "
                 "starting_tensor in {None, torchtt.random rank 2} x preconditioner in {None,'c'} (tol = eps); seeds {%d,1}; "
                 "float64. Contract: q is a finite TT tensor of the same shape and ||dense(q)*dense(y) - dense(x)|| <= "
